@@ -1,9 +1,14 @@
 #!/bin/bash
 # Build the framework from files on disk only (offline).
+# Order matters in a fresh checkout: the settings translator reads a header that the pika build generates
+# (pika/config/defines.hpp), so pika (hooks variant) is built first, then the translators, then the Lean library.
 set -e
 HERE=$(cd "$(dirname "$0")/.." && pwd)
-for t in "$HERE"/tools/translate/*.py; do python3 "$t" >/dev/null || { echo "translator $t failed"; exit 1; }; done
-cd "$HERE/lean" && lake build 2>&1 | tail -3
 "$HERE/tools/build_pika.sh" hooks
+for t in "$HERE"/tools/translate/*.py; do
+  case "$t" in */cxx_expr.py) continue;; esac       # library module, not a translator
+  python3 "$t" >/dev/null || { echo "translator $t failed"; exit 1; }
+done
+cd "$HERE/lean" && lake build 2>&1 | tail -3
 "$HERE/tools/build_pika.sh" mpi
 echo setup ok
